@@ -282,6 +282,41 @@ def run_c02(ctx):
                     ctx["violations"].append((f"{name}: detector {det}: {errs[0]}", {"kind": "path-validity", "program": text, "detector": det}))
                     break
         ctx["cov"]["paths_checked_declaratively"] = n
+        # last sentence of C02: the JSON rendering ('short', per-block instruction lists) of the real CLI denotes exactly the
+        # reported block sequence -- also when a block occurs several times in one path (a subroutine called twice)
+        import cli
+        twice = "#pragma version 6\ncallsub f\ncallsub f\nint 1\nreturn\nf:\nint 7\npop\nretsub"
+        nested = "#pragma version 6\ncallsub g\ncallsub f\nint 1\nreturn\ng:\ncallsub f\nretsub\nf:\nint 7\npop\nretsub"
+        cand = [("directed:sub-called-twice", twice, None), ("directed:nested-and-shared", nested, None)]
+        cand += [(name, text, i) for name, text, meta, m, i in results if name.startswith("adv:") and "paths" in i][:: 4 if ctx["tier"] == "quick" else 1]
+        cand += [(name, text, i) for name, text, meta, m, i in results if meta["stream"].startswith("random") and "paths" in i and "callsub" in text][: 6 if ctx["tier"] == "quick" else 60]
+        runs = par_map(lambda c: cli.full_run(c[1], printers=False), cand)
+        nj = 0
+        for (name, text, i), r in zip(cand, runs):
+            j = r.get("json")
+            if not isinstance(j, dict) or not isinstance(j.get("result"), list):
+                continue
+            if i is None:
+                _, ii = corr.run_both([("analyze", "x", text, [])], shards=1)
+                i = ii["x"]
+            if "blocks" not in i:
+                continue
+            rows = {b["idx"]: [f"{ln}: {tx}" for ln, tx in zip(b["lines"], b["ins"])] for b in i["blocks"]}
+            for res in j["result"]:
+                want = i.get("paths", {}).get(res.get("check"))
+                if res.get("type") != "ExecutionPaths" or not isinstance(want, list):
+                    continue
+                nj += 1
+                got_short = [p.get("short") for p in res.get("paths", [])]
+                if got_short != [" -> ".join(str(x) for x in pth) for pth in want] or res.get("count") != len(want):
+                    ctx["violations"].append((f"{name}: {res.get('check')}: JSON lists paths {got_short} (count {res.get('count')}), the detector returned {want}", {"kind": "json-rendering", "program": text, "detector": res.get("check")}))
+                    break
+                bad = [(pth, [len(x) for x in p.get("blocks", [])]) for pth, p in zip(want, res["paths"]) if [len(x) for x in p.get("blocks", [])] != [len(rows.get(b, [])) for b in pth]
+                       or any([str(y).split(":")[0] for y in x] != [str(y).split(":")[0] for y in rows.get(b, [])] for x, b in zip(p.get("blocks", []), pth))]
+                if bad:
+                    ctx["violations"].append((f"{name}: {res.get('check')}: the JSON 'blocks' of path {bad[0][0]} do not list the instructions of exactly these blocks in order (sizes {bad[0][1]})", {"kind": "json-rendering", "program": text, "detector": res.get("check")}))
+                    break
+        ctx["cov"]["json_renderings_read_back"] = nj
     generic_run(ctx, cmp_for(keys=None, paths=[]), set(), extra=extra)
 
 
